@@ -61,14 +61,31 @@ def platform_abi():
     return vals
 
 
+SIZE_CASTS = r"\(\s*(?:int|unsigned|unsigned\s+int|size_t|long|unsigned\s+long)\s*\)"
+
+
 def eval_size(expr, env):
-    """Evaluate a small C size expression (sizeof(x), names, + - *) with the given environment."""
+    """Evaluate a small C size expression (sizeof(x), names, + - *) with the given environment.
+    Casts of the whole expression or of a sizeof to an integer type of at least 31 bits are
+    value-preserving for the sizes accepted here (checked below) and are dropped."""
     e = strip_comments(expr).strip()
-    e = re.sub(r"sizeof\s*\(\s*(\w+)\s*\)", lambda m: str(env["sizeof:" + m.group(1)]), e)
-    e = re.sub(r"\b([A-Za-z_]\w*)\b", lambda m: str(env[m.group(1)]), e)
+    e = re.sub(SIZE_CASTS + r"(?=\s*(?:sizeof\b|\(|[A-Za-z_0-9]))", " ", e)
+
+    def look(key, what):
+        if key not in env:
+            raise NotFound("size expression not understood (%s): %s" % (what, expr))
+        return str(env[key])
+    e = re.sub(r"sizeof\s*\(\s*(\w+)\s*\)", lambda m: look("sizeof:" + m.group(1), "sizeof " + m.group(1)), e)
+    e = re.sub(r"\b([A-Za-z_]\w*)\b", lambda m: look(m.group(1), "name " + m.group(1)), e)
     if not re.fullmatch(r"[0-9\s\+\-\*\(\)]+", e):
         raise NotFound("size expression not understood: " + expr)
-    return int(eval(e, {"__builtins__": {}}))
+    try:
+        v = int(eval(e, {"__builtins__": {}}))
+    except Exception:  # noqa: BLE001
+        raise NotFound("size expression not understood: " + expr)
+    if not 0 <= v < 2 ** 31:
+        raise NotFound("size expression out of the range in which casts are value-preserving: " + expr)
+    return v
 
 
 def call_args(src, fn, nth=0):
@@ -114,22 +131,55 @@ def local_array(src, name):
     return m.group(1)
 
 
+STORE_RHS = re.compile(r"(?:\(\s*x\s*>>\s*(\d+)\s*\)|x)\s*&\s*(0x[0-9a-fA-F]+|\d+)")
+
+
+def parse_store(name, stmt):
+    """p[i] = (x >> s) & m   or   p[i] = (uint8_t)((x >> s) & m)   ->  (i, s, m).
+    The explicit conversion to uint8_t keeps the low 8 bits: it is folded into the mask (and is
+    value-preserving when the mask is already within a byte)."""
+    m = re.fullmatch(r"\s*p\[(\d+)\]\s*=\s*(.*?)\s*", stmt, flags=re.S)
+    if not m:
+        raise NotFound("sysendian.h: store statements of %s not understood" % name)
+    idx, rhs, cast = int(m.group(1)), m.group(2), False
+    c = re.fullmatch(r"\(\s*uint8_t\s*\)\s*\((.*)\)", rhs, flags=re.S)
+    if c:
+        rhs, cast = c.group(1).strip(), True
+    r = STORE_RHS.fullmatch(rhs)
+    if not r:
+        raise NotFound("sysendian.h: store statements of %s not understood" % name)
+    mask = int(r.group(2), 0)
+    return idx, int(r.group(1) or "0"), (mask & 0xff) if cast else mask
+
+
 def endian_tables(repo):
     """util/sysendian.h: the (index, shift, mask) of every store statement and the (index, shift)
-    of every term of the load expressions, in source order."""
+    of every term of the load expressions, in CANONICAL order (ascending shift, then index).
+    Canonicalising is sound because (a) the store statements of one routine write constants-indexed,
+    pairwise DISTINCT bytes of the same object with values that depend on x only, so they commute,
+    and (b) `|` is commutative and associative on side-effect-free operands.  If two stores target
+    the same index, or a byte occurs in two OR-ed terms, the order could matter / the form is not the
+    expected one: the module refuses (NotFound) and leaves the decision to the pinned tables plus
+    the correspondence run."""
     src = strip_comments(read(repo, "util/sysendian.h"))
     out = "(* util/sysendian.h: enc = list of (index, shift, mask) per store statement; dec = list of\n"
-    out += "   (index, shift) per OR-ed term, in source order; widths from the function names *)\n"
+    out += "   (index, shift) per OR-ed term, in canonical order (ascending shift; the stores go to\n"
+    out += "   pairwise distinct indices and the terms read pairwise distinct bytes - checked by the\n"
+    out += "   translator - so source order is immaterial); widths from the function names *)\n"
     seen = set()
     for m in re.finditer(r"^(be|le)(16|32|64)(enc|dec)\(([^)]*)\)\s*\n\{(.*?)^\}", src, flags=re.S | re.M):
         name = m.group(1) + m.group(2) + m.group(3)
         body = m.group(5)
         seen.add(name)
         if m.group(3) == "enc":
-            ent = re.findall(r"p\[(\d+)\]\s*=\s*(?:\(\s*x\s*>>\s*(\d+)\s*\)|x)\s*&\s*(0x[0-9a-fA-F]+|\d+)\s*;", body)
-            if len(ent) != len(re.findall(r"p\[", body)) or not ent:
+            stmts = [t for t in body.split(";") if re.search(r"\bp\s*\[", t)]
+            ent = [parse_store(name, t) for t in stmts]
+            if not ent:
                 raise NotFound("sysendian.h: store statements of %s not understood" % name)
-            rows = ["(%d, %d, %d)" % (int(i), int(s or "0"), int(k, 0)) for i, s, k in ent]
+            if len({i for i, _, _ in ent}) != len(ent):
+                raise NotFound("sysendian.h: two stores of %s target the same byte (order matters)" % name)
+            ent.sort(key=lambda e: (e[1], e[0]))
+            rows = ["(%d, %d, %d)" % e for e in ent]
             out += "Definition %s_tab : list (N * N * N) :=\n  [%s]%%N.\n" % (name, "; ".join(rows))
         else:
             ret = re.search(r"return\s*(.*?);", body, flags=re.S)
@@ -140,7 +190,11 @@ def endian_tables(repo):
                     any(w != m.group(2) for w, _, _ in ent) or "|" not in ret.group(1) or \
                     re.search(r"[&^+\-*/~]", ret.group(1)):
                 raise NotFound("sysendian.h: load expression of %s not understood" % name)
-            rows = ["(%d, %d)" % (int(i), int(s or "0")) for _, i, s in ent]
+            terms = [(int(i), int(sh or "0")) for _, i, sh in ent]
+            if len({i for i, _ in terms}) != len(terms):
+                raise NotFound("sysendian.h: a byte occurs in two terms of the load expression of %s" % name)
+            terms.sort(key=lambda e: (e[1], e[0]))
+            rows = ["(%d, %d)" % e for e in terms]
             out += "Definition %s_tab : list (N * N) :=\n  [%s]%%N.\n" % (name, "; ".join(rows))
     want = {e + w + d for e in ("be", "le") for w in ("16", "32", "64") for d in ("enc", "dec")}
     if seen != want:
@@ -148,7 +202,7 @@ def endian_tables(repo):
     return out
 
 
-def extract(repo):
+def extract_inner(repo):
     out = HEADER
     out += endian_tables(repo)
     # ---- aws/aws_readkeys.c
@@ -206,3 +260,14 @@ def extract(repo):
     for k in sorted(abi):
         out += coq_def_N(k, abi[k])
     return {"Repo_codec2.v": out}
+
+
+def extract(repo):
+    """Every failure to READ the source is a NotFound (the translator layer then falls back to the
+    pinned output and says so); no other exception type leaves this module."""
+    try:
+        return extract_inner(repo)
+    except NotFound:
+        raise
+    except (KeyError, IndexError, AttributeError, ValueError, TypeError) as e:
+        raise NotFound("codec2: source form not understood (%s: %s)" % (type(e).__name__, e))
